@@ -14,7 +14,7 @@ import random
 from fractions import Fraction as Fr
 
 from common import fr, impl, impl_site
-from dsl import build_model, grid_points
+from dsl import N, V, build_model, grid_points
 from gen import nontrivial, signature
 from pipeline import materialise_case, model_layout
 from props.simcommon import base_out
@@ -80,6 +80,9 @@ def _check_spec(I, mj, case, tag):
             vs.append({"clause": "no restricted state, no indexer", "detail": f"{where}: {list(indexers)}"})
             break
         # segments
+        if sparse_names and segs is None:
+            vs.append({"clause": "choice segments group the stored combinations by the rank of their state part", "detail": f"{where}: implementation returns no segments for {len(L['rows'])} stored combinations, model ids {L['seg_ids'][:20]} num {len(L['feas'])}"})
+            break
         if sparse_names:
             ids = [int(x) for x in np.asarray(segs["segment_ids"])]
             if ids != L["seg_ids"] or int(segs["num_segments"]) != len(L["feas"]):
@@ -128,6 +131,18 @@ def run_case(case):
     variants = [("", mj)]
     if len(mj["states"]) + len(mj["choices"]) > 2:
         variants.append(("declaration order reversed: ", dict(mj, states=list(reversed(mj["states"])), choices=list(reversed(mj["choices"])))))
+    # a filter that restricts choices only (e.g. "not before period 1"): no restricted state, the empty state combination has
+    # rank 0 and all stored choice combinations form the single segment 0 (the space is what C17 speaks about; solving such a
+    # specification is finding K2)
+    dcs = [c for c, g in mj["choices"] if g["k"] == "disc"]
+    if dcs and not any(f["name"].endswith("_filter") for f in mj["functions"]):
+        d = dcs[case.get("seed", 0) % len(dcs)]
+        n_d = dict(mj["choices"])[d]["n"]
+        body = ["or", ["lt", V(d), N(n_d - 1)], ["le", N(1), V("_period")]] if case.get("seed", 0) % 2 else ["lt", V(d), N(max(1, n_d - 1))]
+        args = [d, "_period"] if case.get("seed", 0) % 2 else [d]
+        co = {"name": "co_filter", "args": args, "body": body, "stochastic": False, "ints": True}
+        variants.append(("choice-only filter added: ", dict(mj, functions=mj["functions"] + [co])))
+        out["hist"]["choice_only_filter"] = 1
     for tag, mjv in variants:
         n, v1 = _check_spec(I, mjv, case, tag)
         evals += n
